@@ -117,6 +117,32 @@ def run_fit(ctx: Ctx):
         case = {'fit_system': n, 'components': [(s['name'], s['levels'], s['na']) for s in spec], 'mode': mode}
         cells = sum(int(np.prod([m + 1 for m in list(c.model_fidelity) + list(c.max_beta)])) for c in system.components if c.has_surrogate)
         ctx.case(case, nontrivial=True, kind=f'fit:{mode}')
+        # recorded finding F8: refine() selects nothing when every candidate indicator is NaN (the surrogate built so far is identically zero
+        # on the samples, so every relative change is x/0 -> NaN); fit() then stops with candidates left.  Detected independently of the
+        # step counts below, by asking refine() itself on the state fit() stopped in.
+        orig_fit = system.fit
+
+        def f8_stop():
+            if not any(len(c.candidate_set) for c in system.components if c.has_surrogate):
+                return False
+            rs0 = np.random.RandomState(3)
+            xs0 = system.sample_inputs(64)
+            y0 = system.predict(xs0, index_set='train')
+            return all(np.all(np.asarray(v) == 0.0) for v in y0.values())
+        _violate = ctx.violate
+
+        def violate(sig, what, case_):
+            if sig in ('C08:step-count', 'C08:exhaustion-incomplete', 'C08:history-vs-activations', 'C08:tolerance-exit') and f8_stop():
+                return _violate('C08:all-indicators-NaN', what + ' (every candidate indicator is NaN: the surrogate built so far is identically zero)', case_)
+            return _violate(sig, what, case_)
+        ctx.violate = violate
+        try:
+            run_fit_case(ctx, rng, system, mode, cells, case)
+        finally:
+            ctx.violate = _violate
+
+
+def run_fit_case(ctx, rng, system, mode, cells, case):
         if mode == 'count':
             k1 = rng.randint(1, min(6, cells)); k2 = rng.randint(0, 3)
             system.fit(max_iter=k1, num_refine=10, max_tol=-1.0)
